@@ -95,6 +95,23 @@ CLAIMED.update({
             "faulted call or the next one, and refusal afterwards.", FS_NOTE, FS_TECH),
 })
 
+CLAIMED.update({
+    "C17": ("Mirror, MCMirror, MirrorTrace, TraceBase",
+            "E1: TLC explores the mirror's own file-system operations (mkdirs/cmp, stage under tmp., rename, removal, rmdir) for the three handler "
+            "roles over 2 RF + 2 metadata files + properties with each event delivered up to twice in any order, stale events, a crash "
+            "between any two operations and a restart, copy/move/link, same and different file systems, checking Staged, NoLossMove, "
+            "Fidelity at quiescence, NewestMdStays, FinalStable; witnesses show crash-between-copy-and-rename etc. are reachable. E2: "
+            "simulated behaviours are replayed on a real DigitalRFMirror (stub observer) over a recording shaped like the model. E3: real "
+            "recordings x 8 method variants x event histories with duplication, reordering, stale events, a crash before every operation "
+            "(move) or sampled (copy/link) incl. half-copied tmp and forced EXDEV; every operation is one trace event with both trees "
+            "projected (sha1 per path) and TLC validates order and invariants after each; a DigitalRFReader on the destination is compared "
+            "with the source.",
+            "Trusted: TLC, wrappers around os.rename/link/makedirs/rmdir/remove, shutil.copy2/move, filecmp.cmp installed in the harness "
+            "process (one event per mirror operation, crash = exception raised before operation i), sha1 projection of both trees. Events "
+            "are dispatched synchronously; real inotify delivery and the observer thread are not exercised.",
+            "TLA+ spec + TLC exhaustive model checking with crash/restart; simulated behaviours replayed on the real mirror; TLC trace validation of operation-level traces"),
+})
+
 PENDING_REASON = "check not built yet in this round; the property is planned to be decided by the TLA+ module named in DESIGN.md section 5"
 
 
